@@ -348,7 +348,7 @@ func TestC14(t *testing.T) {
 
 // TestC14Fanout: concurrent whole requests, reverse-DNS fan-outs and allocator callers under the race detector.
 func TestC14Fanout(t *testing.T) {
-	rec := NewRecorder("C14", "C14Fanout", "rapid under the race detector: RunTraceroute (half of the cases two requests at the same time on one Traceroute object) with 2..5 concurrent runs + 0..6 e2e probes over the simulated wire, reverse-DNS fan-out over 1..40 addresses with a scripted resolver, and concurrent allocator callers; oracle: zero race reports")
+	rec := NewRecorder("C14", "C14Fanout", "rapid under the race detector: RunTraceroute (half of the cases two requests at the same time on one Traceroute object) with 2..5 concurrent runs + 0..6 e2e probes over the simulated wire, a stub or the real public-IP fetcher (over scripted providers: answering, failing once, down; or as the plain constructor makes it, first used by both requests at once, with the answer already cached), reverse-DNS fan-out over 1..40 addresses with a scripted resolver, and concurrent allocator callers; oracle: zero race reports")
 	RunProp(t, rec, func(rt *rapid.T) *Request {
 		rq := &Request{}
 		rq.P = ReqParams{Hostname: "93.184.216.34", Port: 443, Protocol: oneOf(rt, "proto", "udp", "icmp", "tcp"), MinTTL: 1, MaxTTL: rapid.IntRange(2, 6).Draw(rt, "max"),
@@ -363,7 +363,20 @@ func TestC14Fanout(t *testing.T) {
 		// the caller goes on reading the document it was handed while a slow public-IP answer is still on its way
 		rq.ReadAfter = true
 		if rq.P.PublicIP {
-			rq.Fetcher = oneOf(rt, "fetcher", "", "slow", "slow", "error")
+			rq.Fetcher = oneOf(rt, "fetcher", "", "slow", "slow", "error", "real", "real", "plain-cached")
+			if rq.Fetcher == "real" {
+				// the real fetcher (one per Traceroute object, shared by its requests) over scripted providers: its
+				// retry state is shared state too. Failures are not cached, so every request asks again.
+				rq.Fetcher = ""
+				switch oneOf(rt, "providers", "valid", "transient-then-valid", "down") {
+				case "valid":
+					rq.ProviderDefault = []ProviderStep{{Kind: "resp", Status: 200, Body: "203.0.113.77\n"}}
+				case "transient-then-valid":
+					rq.ProviderDefault = []ProviderStep{{Kind: "neterr"}, {Kind: "resp", Status: 200, Body: "203.0.113.77\n"}}
+				default:
+					rq.ProviderDefault = []ProviderStep{{Kind: "neterr"}}
+				}
+			}
 		}
 		// a third of the requests fail everywhere at once: every run and every e2e probe reports its error at
 		// about the same instant (the error collection is shared state too)
